@@ -1,12 +1,16 @@
 #!/bin/bash
 # Same as run.sh but in an isolated scratch copy (/tmp/w-selftest: private harness + private copy of /repo),
 # so that /repo and /verif stay usable meanwhile.  selftest/run_scratch.sh [ID ...]
+# SHARD=k/n runs every n-th mutant (k = 0..n-1) in its own scratch /tmp/w-selftest<k> and writes RESULTS.txt.<k>;
+# selftest/run_sharded.sh <n> starts n shards in parallel and merges them.
 set -u
 cd "$(dirname "$0")/.." || exit 2
-/verif/tools/mkscratch.sh selftest >/dev/null || exit 2
-D=/tmp/w-selftest
+SH_K=""; SH_N=1
+if [ -n "${SHARD:-}" ]; then SH_K="${SHARD%%/*}"; SH_N="${SHARD##*/}"; fi
+/verif/tools/mkscratch.sh selftest$SH_K >/dev/null || exit 2
+D=/tmp/w-selftest$SH_K
 source $D/env.sh
-export CARGO_BUILD_JOBS=8 VERIF_THREADS=8
+export CARGO_BUILD_JOBS=${SELFTEST_JOBS:-8} VERIF_THREADS=${SELFTEST_THREADS:-8}
 rm -rf $D/repo.orig; mkdir -p $D/repo.orig; rsync -a $D/repo/packages $D/repo/examples $D/repo.orig/
 # restore and TOUCH what was restored (an old mtime would make cargo keep the stale, mutated build of that crate)
 restore() {
@@ -14,12 +18,14 @@ restore() {
     rsync -ai --delete $D/repo.orig/$sub/ $D/repo/$sub/ | awk '$1 ~ /^>f/ {print substr($0, index($0,$2))}' | while read -r f; do touch "$D/repo/$sub/$f"; done
   done
 }
-OUT=/verif/selftest/RESULTS.txt
+OUT=/verif/selftest/RESULTS.txt${SH_K:+.$SH_K}
+idx=-1
 : > "$OUT.tmp"
 fail=0
 for patch in /verif/selftest/mutants/*.patch; do
   base="$(basename "$patch" .patch)"; id="${base%%-*}"
   if [ $# -gt 0 ]; then case " $* " in *" $id "*) ;; *) continue ;; esac; fi
+  idx=$((idx+1)); if [ -n "$SH_K" ] && [ $((idx % SH_N)) -ne "$SH_K" ]; then continue; fi
   if ! (cd $D/repo && git apply "$patch" 2>/dev/null); then echo "$base: PATCH-DOES-NOT-APPLY" | tee -a "$OUT.tmp"; fail=1; restore; continue; fi
   if ! (cd $D/harness && cargo build --release --offline >/dev/null 2>&1); then echo "$base: BUILD-FAILED" | tee -a "$OUT.tmp"; fail=1; restore; continue; fi
   log="$($D/target/release/check --property "$id" --tier quick --no-evidence 2>/dev/null)"; code=$?
